@@ -2,7 +2,7 @@
    definitions) satisfies the executable premises of C03_meaning_classes (ClsFrag.cdslb, defs_okb:
    proved sound), so the resolved document means what the tree means by theorem. *)
 From Coq Require String. Import String.StringSyntax.
-From Statham.Model Require Import Str Json Elem Validate Equality SerJson Spec6 RunHelpers SerFrag RunSer ClsFrag.
+From Statham.Model Require Import Str Json Elem Validate Equality SerJson Spec6 RunHelpers SerFrag RunSer ClsFrag DefsFrag.
 Local Open Scope string_scope.
 Local Open Scope list_scope.
 
@@ -10,7 +10,9 @@ Definition run_ser_case_c03 (c : list (str * elem) * elem * list elem * json) : 
   run_ser_case c ++
   match c with (defs, primary, classes, _) =>
     match defs, primary with
-    | _ :: _, _ => []
+    | _ :: _, ENothing => []
+    (* 12: caller-supplied definitions, and the premise of C03_meaning_definitions holds (DefsFrag.cd_okb, proved sound) *)
+    | _ :: _, _ => if cd_okb defs classes 200 primary then [12%nat] else []
     | [], ENothing => []
     | [], _ => if cdslb 200 primary && defs_okb (class_defs classes) 200 primary then [10%nat] else []
     end
